@@ -532,7 +532,7 @@ st exec_stmt(W &w, std::string const &t, std::string const &op, std::string cons
         out.tv = read(tobj);
         status = st::ok;
       }
-      else if (op == "add" || op == "sub" || op == "asg" || (!IsMat && op == "mul"))
+      else if (op == "add" || op == "sub" || op == "asg" || op == "ctor" || (!IsMat && op == "mul"))
       {
         auto const inner = [&](auto &xobj)
         {
@@ -551,6 +551,13 @@ st exec_stmt(W &w, std::string const &t, std::string const &op, std::string cons
           {
             // same storage type: the implicit copy assignment; different storage type: the converting operator=
             auto &r = (tobj = xc);
+            out.ret = &r == &tobj;
+          }
+          else if (op == "ctor")
+          {
+            // the converting constructor (detail::copy) into a static temporary, which is then assigned
+            using static_type = std::conditional_t<IsMat, typename W::mat_t, typename W::vec_t>;
+            auto &r = (tobj = static_type(xc));
             out.ret = &r == &tobj;
           }
           else
